@@ -109,10 +109,14 @@ def run_history(seed, quick):
     H.upgrade(env)
     plan = {}            # conn id -> treatment of its next heartbeat OPTIONS
     hb_seen = []         # (conn id, t, treatment)
+    probing = set()      # connections on which the scenario itself is sending a request right now
+    windows = []         # (A, B) of every judged round
 
     def behaviour(node, cstate, req):
         if req['op'] == 'OPTIONS' and cstate.ready:
             cid = cstate.conn.sim_id
+            if cid in probing:
+                return None               # the scenario's own OPTIONS request, not a heartbeat
             tr = plan.pop(cid, 'ok')
             hb_seen.append((cid, node.net.world.now, tr))
             if tr == 'error':
@@ -309,6 +313,7 @@ def run_history(seed, quick):
                 viol.append(('heartbeat-on-connection-outside-holders', 'OPTIONS heartbeats on connections %r that no holder listed before the round' % (sorted(set(h[0] for h in extra)),)))
             plan.clear()
             prev_window = (A, B)
+            windows.append((A, B))
             trace_B = len(world.trace)
             for r in rows:
                 last_B_trace[r['cid']] = trace_B
@@ -336,11 +341,14 @@ def run_history(seed, quick):
                 for h in holders:
                     for c in list(h.conns):
                         if not (c.is_closed or c.is_defunct) and rng.random() < 0.35:
+                            probing.add(c.sim_id)
                             try:
                                 c.wait_for_response(OptionsMessage() if rng.random() < 0.5 else
                                                     QueryMessage(query=uid_query(uid[0]), consistency_level=ConsistencyLevel.ONE), timeout=2.0)
                             except Exception as e:      # noqa
                                 raise RuntimeError("harness: probe request failed: %r" % (e,))
+                            finally:
+                                probing.discard(c.sim_id)
                     if len(h.conns) < 3 and rng.random() < 0.5:
                         h.conns.append(env.conn_class.factory(DefaultEndPoint(rng.choice(addrs)), 5.0, protocol_version=proto))
                         stats['replaced_seen'] += 1
@@ -355,6 +363,11 @@ def run_history(seed, quick):
             world.preempt = True
             world.settle(advance=False)
             world.preempt = False
+        # every heartbeat the node saw belongs to a round: none before the first interval elapsed, none between rounds
+        stray = [(cid, round(t - t0, 4)) for cid, t, tr in hb_seen if t <= world.now and not any(a <= t <= b for a, b in windows)
+                 and t < (windows[-1][1] if windows else 0)]
+        if stray and not viol:
+            viol.append(('heartbeat-outside-the-interval-schedule', 'OPTIONS heartbeats at offsets %r (conn, seconds after the heartbeat thread started); rounds are due every %.0f s' % (stray[:6], I)))
         harness = list(world.errors) + [('parse', p) for p in env.net.parse_failures] + [('framing', p) for p in env.net.framing_errors]
         if mode == 'cluster':
             stats['replaced_seen'] += sum(1 for c in env.net.conns if c.sim_creator in ('reconnector', 'pool-replace'))
@@ -391,7 +404,7 @@ def run(ctx):
     ctx.assume("traffic, silent connection deaths and replacements happen strictly between rounds; server closes that race the round are timed at the "
                "round's instant and may or may not be preceded by the heartbeat's OPTIONS (both accepted), a dead connection an owner still lists at the next round must be handed to return_connection then")
     n = ctx.scale(2500, 120000)
-    budget = 38 if ctx.quick else 400
+    budget = 34 if ctx.quick else 400
     import time
     t_run0 = time.time()          # the budget counts from here (imports done); at most 25 s of start-up slack on a loaded machine
     base = ctx.seed * 1000003 + (ctx.worker or 0) * 100003
